@@ -767,7 +767,7 @@ impl Property for C07 {
     }
 
     fn cases(tier: Tier) -> u32 {
-        tier.pick(6_000, 400_000)
+        tier.pick(20_000, 400_000)
     }
 
     fn run(case: &Case, ctx: &mut Ctx) {
